@@ -5,6 +5,14 @@ ROOT = os.path.dirname(os.path.dirname(os.path.abspath(__file__)))
 
 # id -> (level, technique, level text, level note, design ref)
 CLAIMED = {
+ "C04": ("exploration", "runtime monitoring: round-trip + independent spec decoder oracle over PRNG value sequences with dirty reused dst buffers; offline cross-build digest join (std / purego / AVX-disabled)",
+         "Held on every explored (encoding, kind, sequence, dst history) case: library decode == input, independent decoder (written from the format spec) == input, and sha256 of encoded and decoded bytes identical across the assembly, purego and AVX-disabled variants. Unbounded input space sampled at block/miniblock/8-group boundaries: exploration.",
+         "Trusted: specreader's decoders (validated against the parquet-testing files). RLE run values wider than the bit width are masked and counted (leniency).",
+         "DESIGN.md §4 C04"),
+ "C17": ("exploration", "runtime monitoring: sha256 equality of files written from equal (rows, options) under different process/instance histories, offline digest join across std/purego/AVX-disabled builds",
+         "Held on every explored case: fresh writer twice, after unrelated writes, writer reused through Reset after completed/abandoned/failed files of other content, other goroutine, reused GenericBuffer/RowBuffer/SortingWriter all produce identical bytes; fresh digests equal across three build/CPU variants. Histories and inputs are sampled: exploration.",
+         "Map-typed columns and encryption excluded as the statement says. sha256 collisions ignored.",
+         "DESIGN.md §4 C17"),
  "C03": ("exploration", "runtime monitoring: pairwise stream equality of 8 ingestion entry points against an independent Dremel shredding model, over PRNG rows with bitmap-boundary null runs",
          "Held on every explored (type, rows, batch) case: GenericWriter[T], GenericWriter[any], Writer.Write(any), GenericBuffer[T], Buffer, RowBuffer[T], WriteRows(Deconstruct) and per-column writers all store exactly the (value,r,d) streams of the reference Dremel model, and Reconstruct(Deconstruct(v)) == v. Sampling of an unbounded type/value space: exploration.",
          "Trusted: the library's Node API as schema report; the read side (Rows().ReadRows) used to observe what was stored (C02 checks the bytes independently). Maps hold <=1 entry here.",
